@@ -87,6 +87,13 @@ def run(tier, seed):
                 for nm, box, exp in (("x<0", ("i", -M, -1), ("const", M)), ("x==0", ("i", 0, 0), ("const", 0)),
                                      ("0<x<2^31", ("i", 1, T47), ("range", 0, 1 << 32))):
                     rr = ctx.run(w, [box])
+                    viol = [a for a in rr.alarms if a.status == "violation"]
+                    for a in viol:
+                        V.oblige(False)
+                        V.violation(a.kind, a.site, "%s in %s(%s) [%s] at %s (region %s)" % (a.kind, w, a.witness, cfg, a.where, nm),
+                                    lib.rp(rr, a.witness, a.kind))
+                    if not rr.paths and viol:
+                        continue      # every execution of this region ends in the reported trap
                     lib.check_regions(V, rr, [(nm, [], exp)], bad, "sqrt: NaN below 0, 0 at 0, 0 <= result <= 2^16 on 0 <= x < 2^31 [%s]" % w, site=w[2:])
                 r = ctx.run(w, [("i", 1, T47)])
                 for a in r.alarms:
